@@ -60,6 +60,11 @@ inductive Explained (env : Env) (sch : Schema) : List (Str × Val) → List (Str
       Steps env (chainOf sch k) v v' es → Explained env sch ls ls' log →
       Explained env sch ((k, v) :: ls) ((k, v') :: ls') (es ++ log)
 
+/-- two lists related element by element. -/
+inductive Forall2 {α β : Type} (R : α → β → Prop) : List α → List β → Prop
+  | nil : Forall2 R [] []
+  | cons {a : α} {b : β} {as : List α} {bs : List β} : R a b → Forall2 R as bs → Forall2 R (a :: as) (b :: bs)
+
 /-- the case-insensitive matches of `s` in an allowed list (what `_attempt_enum_casefold` computes). -/
 def ciMatches (env : Env) (allowed : List Str) (s : Str) : List Str :=
   allowed.filter (fun a => env.lower a == env.lower s)
